@@ -381,7 +381,7 @@ func selftest(repo, verif string, n int) int {
 	if err != nil {
 		die(err)
 	}
-	fmt.Printf("selftest: %d scenarios x 6 executions, %d disagreements\n", total, bad)
+	fmt.Printf("selftest: %d scenarios x 6 executions, %d disagreements; bytes-allocated counter (processes allocating more than 8 MiB, same GOMAXPROCS) differs by at most %.2f%% between two executions of one scenario\n", total, bad, 100*harness.AllocSpread)
 	if bad > 0 {
 		e.Close()
 		return 2
